@@ -26,6 +26,9 @@ import (
 //
 //	{"op":"req","caller":i,"image":"a"}            caller i calls Pull("a") in a new goroutine
 //	{"op":"done","image":"a","result":"ok"|"err"}  the oldest running scripted pull of "a" returns
+//	{"op":"badreq","caller":i,"ref":"quay.io/Bad/Ref:v1"}
+//	    caller i calls Pull with a reference that matches the registry host override of the manager
+//	    but cannot be rewritten: Pull must return (nil, err) at once and start nothing
 //	{"op":"cancel","caller":i}                     the context of caller i's waiting Pull is cancelled
 //	{"op":"overlap","image":"a","result":..,"caller":i}
 //	    as done, but the broadcast of handleResponse is stalled on an extra unbuffered receiver
@@ -48,18 +51,23 @@ type rmStep struct {
 	Caller int    `json:"caller"`
 	Image  string `json:"image"`
 	Result string `json:"result,omitempty"`
+	Ref    string `json:"ref,omitempty"`
 }
 
 type rmScenario struct {
 	Steps []rmStep `json:"steps"`
 	// Unsync: callers mutate the package they got without any harness lock, so that
 	// the race detector sees shared memory between callers (used in -race runs).
-	Unsync bool   `json:"unsync,omitempty"`
-	Tag    string `json:"tag,omitempty"`
+	Unsync bool `json:"unsync,omitempty"`
+	// Override: every image x of the scenario is requested as quay.io/pko/x:v1, which the manager's
+	// registry host override (quay.io -> localhost:123) rewrites to localhost:123/pko/x:v1 before the
+	// request machine; the scripted pull and the accessors then see the rewritten name.
+	Override bool   `json:"override,omitempty"`
+	Tag      string `json:"tag,omitempty"`
 }
 
 type rmEv struct {
-	K      string `json:"k"` // "pull" | "resp"
+	K      string `json:"k"` // "pull" | "resp" | "early" (Pull returned before the request machine)
 	Caller int    `json:"caller"`
 	Image  string `json:"image"`
 	Pull   int    `json:"pull"`          // global number of the scripted pull call (for resp: whose result)
@@ -384,7 +392,27 @@ func init() {
 		for id := range goroutineStates() {
 			h.base[id] = true
 		}
-		rm := packages.NewVerifRequestManager(func(_ context.Context, ref string) (*packages.RawPackage, error) {
+		refOf := func(img string) string {
+			if sc.Override {
+				return "quay.io/pko/" + img + ":v1"
+			}
+			return img
+		}
+		keyOf := func(img string) string {
+			if sc.Override {
+				return "localhost:123/pko/" + img + ":v1"
+			}
+			return img
+		}
+		imgOf := func(key string) string {
+			if sc.Override && strings.HasPrefix(key, "localhost:123/pko/") && strings.HasSuffix(key, ":v1") {
+				return strings.TrimSuffix(strings.TrimPrefix(key, "localhost:123/pko/"), ":v1")
+			}
+			return key
+		}
+		overrides := map[string]string{"quay.io": "localhost:123"}
+		rm := packages.NewVerifRequestManagerWithOverrides(overrides, func(_ context.Context, ref string) (*packages.RawPackage, error) {
+			ref = imgOf(ref)
 			h.mu.Lock()
 			rec := &rmPull{n: h.pullSeq, image: ref, gate: make(chan string, 1)}
 			rec.orig = pristine(ref, rec.n)
@@ -403,7 +431,7 @@ func init() {
 		count := func(image string) int {
 			deadline := time.Now().Add(2 * time.Second)
 			for {
-				n, present, locked := rm.VerifTryReceivers(image)
+				n, present, locked := rm.VerifTryReceivers(keyOf(image))
 				if locked {
 					if !present {
 						return 0
@@ -424,7 +452,7 @@ func init() {
 		present := func(image string) bool {
 			deadline := time.Now().Add(2 * time.Second)
 			for {
-				_, p, locked := rm.VerifTryReceivers(image)
+				_, p, locked := rm.VerifTryReceivers(keyOf(image))
 				if locked {
 					return p
 				}
@@ -480,9 +508,11 @@ func init() {
 			h.reqs = append(h.reqs, req)
 			h.mu.Unlock()
 			go func() {
-				pkg, err := rm.Pull(ctx, st.Image)
+				pkg, err := rm.Pull(ctx, refOf(st.Image))
 				ev := rmEv{K: "resp", Caller: st.Caller, Image: st.Image, Pull: -1, Res: "none", req: k}
 				switch {
+				case pkg != nil && err != nil:
+					ev.Res = "both" // a package AND an error
 				case pkg != nil:
 					ev.Res = "ok"
 					if !sc.Unsync {
@@ -532,7 +562,7 @@ func init() {
 			endStep(st.Image)
 		}
 		doOverlap := func(k int, st rmStep) {
-			release, ok := rm.VerifStallBroadcast(st.Image)
+			release, ok := rm.VerifStallBroadcast(keyOf(st.Image))
 			if !ok { // no entry to stall on: run the two operations one after the other
 				obs.Flags = append(obs.Flags, fmt.Sprintf("nostall@%d", k))
 				obs.Overlap = append(obs.Overlap, "nostall")
@@ -577,7 +607,7 @@ func init() {
 			what := "other"
 			if h.countState("sync.Mutex.Lock") > 0 {
 				what = "blocked-on-lock"
-			} else if _, _, locked := rm.VerifTryReceivers(st.Image); locked {
+			} else if _, _, locked := rm.VerifTryReceivers(keyOf(st.Image)); locked {
 				what = "registered-during-broadcast"
 			}
 			obs.Overlap = append(obs.Overlap, what)
@@ -589,6 +619,40 @@ func init() {
 				obs.Flags = append(obs.Flags, fmt.Sprintf("timeout@%d", k))
 			}
 			endStep(st.Image)
+		}
+		doBadReq := func(k int, st rmStep) {
+			var (
+				mu       sync.Mutex
+				returned bool
+				res      = "pending"
+			)
+			go func() {
+				pkg, err := rm.Pull(context.Background(), st.Ref)
+				mu.Lock()
+				defer mu.Unlock()
+				returned = true
+				switch {
+				case pkg != nil && err != nil:
+					res = "both"
+				case pkg != nil:
+					res = "ok"
+				case err != nil:
+					res = "err"
+				default:
+					res = "none" // neither the package nor an error
+				}
+			}()
+			if _, to := h.waitFor(func() bool { return true }); to {
+				obs.Flags = append(obs.Flags, fmt.Sprintf("timeout@%d", k))
+			}
+			mu.Lock()
+			_ = returned
+			ev := rmEv{K: "early", Caller: st.Caller, Image: st.Ref, Pull: -1, Res: res, req: k}
+			mu.Unlock()
+			h.mu.Lock()
+			h.cur = append(h.cur, ev)
+			h.mu.Unlock()
+			endStep("")
 		}
 		doCancel := func(k int, st rmStep) {
 			h.mu.Lock()
@@ -633,10 +697,12 @@ func init() {
 		}
 		images := map[string]bool{}
 		for k, st := range sc.Steps {
-			if st.Op != "cancel" {
+			if st.Op != "cancel" && st.Op != "badreq" {
 				images[st.Image] = true
 			}
 			switch st.Op {
+			case "badreq":
+				doBadReq(k, st)
 			case "cancel":
 				doCancel(k, st)
 			case "req":
